@@ -450,7 +450,8 @@ class Gen:
 		if r < 0.72:
 			if self.rng.random() < 0.02:
 				return self.rng.choice(['0o17', '0b101', '2j'])  # known finding raise:UnresolvedNode:number
-			return self.rng.choice(['1.5', '0.5', '2.0', '1e3', '0x1F', '0xff'])
+			# every lexical class of number: plain / underscored ints, hex, floats with and without a dot, with exponents
+			return self.rng.choice(['1.5', '0.5', '2.0', '1e3', '0x1F', '0xff', '1e5', '2E-3', '7e+2', '1_0e2', '1.', '.5', '1_000', '0e0', '0XAB', '0x_ff', '10', '007'[2:], '1.5e-3', '6.02E23', '0.', '1_0.0_1'])
 		if r < 0.84:
 			return self.rng.choice(["'s'", '"t"', "''", "'a.b'", '"x y"', "'it\\'s'", '"q\\n"'])
 		return self.rng.choice(['True', 'False', 'None'])
@@ -765,6 +766,14 @@ class Gen:
 			r = rng.random()
 			if r < 0.15:
 				deco_first, first = 'classmethod', 'cls'
+				# a class method is one by its decorator, whatever its first parameter or its name is called
+				r4 = rng.random()
+				if r4 < 0.12:
+					first = 'self'
+				elif r4 < 0.2:
+					name = '__init__'
+				elif r4 < 0.25:
+					name, first = '__init__', 'self'
 			elif r < 0.25:
 				deco_first = 'staticmethod'
 			elif r < 0.4:
@@ -1000,6 +1009,12 @@ class Base(Generic[T]):
 	@classmethod
 	def make(cls, *args: int, **kw: str) -> 'Base':
 		return cls(*args, **kw)
+	@classmethod
+	def odd(self, x: float = 1e5) -> None:
+		y = [2E-3, 7e+2, 1_0e2, 1., .5, 1_000, 0e0, 0XAB]
+	@classmethod
+	def __init__(cls) -> None:
+		pass
 	@deco
 	@classmethod
 	def late(cls) -> None:
@@ -1578,7 +1593,11 @@ class TranpCanon:
 		if c in ('Integer', 'Float', 'String', 'DocString'):
 			with warnings.catch_warnings():
 				warnings.simplefilter('ignore')
-				return sx('Const', const_repr(ast.literal_eval(n.tokens)))
+				v = ast.literal_eval(n.tokens)
+			# the KIND of the literal is what the node class says (Integer / Float / String), the value what its text says:
+			# CPython's `1e5` is `float:100000.0`; an Integer node for it would read `int:100000.0`
+			kind = {'Integer': 'int', 'Float': 'float', 'String': 'str', 'DocString': 'str'}[c]
+			return sx('Const', f'{kind}:{v!r}')
 		if c == 'Truthy':
 			return sx('Const', const_repr(True))
 		if c == 'Falsy':
@@ -1676,6 +1695,9 @@ def construct_key(src: str, a: str, b: str) -> str:
 		while j > 0 and s[j - 1] not in ' ()[]':
 			j -= 1
 		w = re.split(r'[ ()\[\]]', s[j:], maxsplit=1)[0]
+		m = re.match(r'(int|float|complex|str|bool|NoneType|bytes):', w)
+		if m:
+			return m.group(1)  # the KIND of a literal (never its value)
 		return w if w in CANON_VOCAB else '*'
 	return f'canon:{tag_at(a)}:{word_at(a)}/{tag_at(b)}:{word_at(b)}'
 
@@ -1864,6 +1886,7 @@ STATEMENTS = {
 	'classify_core / classify_func_partial': 'on every real function_def path, tranp\'s kind = the kind Python\'s scoping dictates (pyFuncClass) given the 3 remaining conventions: @classmethod only in classes, class functions directly in the class body, self first exactly on instance methods',
 	'classify_constructor_agrees / classify_classMethod_agrees / classify_method_sound': 'the three formerly false statements, each with exactly the hypothesis it still needs (one / one / none)',
 	'classify_former_witnesses': 'the three old counter-example witnesses are classified as Python does',
+	'function_def_disjoint / function_def_order / function_def_overlaps / function_def_order_generated': 'Constructor, Method, Closure never accept the same node; every registration order with ClassMethod first and Function last classifies like the shipped one; ClassMethod overlaps each of the three (witnesses on which the seeded order differs); the generated resolver table has one of the good orders',
 	'classify_func_counterexample': 'the unconditional statement is still false where match_feature goes by the name self (class function whose first parameter is not called self); raised by the search as classify:method-without-self-name',
 	'decl_matchers_facts': 'the string constants of DeclableMatcher as generated from primary.py today (re-decided when a tag or word changes)',
 	'decl_role_exact': 'for every position of a bare identifier in the modelled statement forms (targets of plain / annotated / class-variable / augmented assignments, for and comprehension targets, with-as, except-as, lambda and def parameters, def / class / imported names, keyword labels, attribute names, statement operands, anywhere deeper in an expression) below ANY enclosing context, the class given by the first-match dispatch has exactly the role Python gives the occurrence (binding / class-variable binding / use / label)',
